@@ -8,7 +8,8 @@ PROPS['C15'] = dict(
     lean=['Mkdb.Props.C15'],
     facts=['lru.capacity', 'skeleton.storage.LRUCache.set', 'skeleton.storage.LRUCache.get',
            'panics.storage.LRUCache.set', 'panics.storage.LRUCache.get'],
-    runs=[dict(cmd='lru', proto='lru')],
+    runs=[dict(cmd='lru', proto='lru'), dict(cmd='db', proto='db', args=['c16'], corpus='C15db')],
+    sig_filter=r'lru:.*|db:(cache-size-dependent|panic:live|hang:live|select-failed:live)',
     claim='Proof: C15_bounded, C15_lookup(_after_set), C15_evicts_lru_clean, C15_dirty_pinned, C15_refuse_iff, '
           'C15_refuse_unchanged are Lean theorems over every capacity and every finite operation sequence of the '
           'model of LRUCache.set/get plus dirty flips. The model is tied to storage/lru.go on every run by exhaustive '
@@ -37,7 +38,8 @@ PROPS['C12'] = dict(
                             'panics.storage.fileStore.fetch', 'panics.storage.btreeNode.encodeLeaf',
                             'panics.storage.btreeNode.decodeLeaf', 'panics.storage.btreeNode.decodeInternal',
                             'skeleton.storage.fileStore.fetch', 'skeleton.storage.fileStore.update'],
-    runs=[dict(cmd='page', proto='page')],
+    runs=[dict(cmd='page', proto='page'), dict(cmd='db', proto='db', args=['c08'], corpus='C12db')],
+    sig_filter=r'page:.*|db:(contents-differ|select-failed|recovery-failed|panic|hang).*',
     claim='Proof: C12_leaf, C12_internal, C12_roundtrip (every node within capacity - any cell count up to the maximum, '
           'any value bytes up to maxValueSize, any flags, any 64-bit offsets/LSNs - encodes to exactly pageSize bytes and '
           'decodes, through the first-byte dispatch, to the same node), C12_fits (capacity arithmetic over the constants '
